@@ -50,14 +50,22 @@ def eval_profiles(case):
     from bluebonnet import plotting  # noqa: PLC0415
 
     res = reservoir(case["res"], case["n"])
-    every, rescale = case["every"], case["rescale"]
+    every, rescale = case.get("every", 200), case["rescale"]
     fig, ax = plt.subplots()
     viol = []
     try:
         with warnings.catch_warnings(), np.errstate(all="ignore"):
             warnings.simplefilter("ignore")
-            out = plotting.plot_pseudopressure(res, every=every, rescale=rescale, ax=ax)
+            kw = dict(case.get("kwargs") or {})
+            if case.get("default_every"):
+                out = plotting.plot_pseudopressure(res, rescale=rescale, ax=None if case.get("own_axes") else ax, **kw)
+                every = 200
+            else:
+                out = plotting.plot_pseudopressure(res, every=every, rescale=rescale,
+                                                   ax=None if case.get("own_axes") else ax, **kw)
         got = lines_of(out)
+        if case.get("own_axes") and out is ax:
+            viol.append(V("profiles/own-axes", "ax=None did not create the helper's own axes", case=case))
         u = np.asarray(res.pseudopressure, dtype=float)
         x = np.linspace(1 / res.nx, 1, res.nx)
         pinit = u[0, -1]
@@ -82,6 +90,7 @@ def eval_profiles(case):
             viol.append(V("profiles/reservoir-modified", "plotting modified the stored field", case=case))
     finally:
         plt.close(fig)
+        plt.close("all")
     return {"violations": viol, "outcome": "profiles", "key": ("p", case["res"], every, rescale)}
 
 
@@ -164,12 +173,15 @@ def eval_comparison(case):
         if len(l1) != 2 or len(l2) != 1:
             viol.append(V("comparison/count", f"{len(l1)} + {len(l2)} curves, expected 2 + 1", case=case))
         else:
-            if not (same(l1[0][0], ts) and np.allclose(l1[0][1], rf, rtol=1e-10, atol=1e-14)):
+            if not (close(l1[0][0], ts) and np.allclose(l1[0][1], rf, rtol=1e-10, atol=1e-14)):
                 viol.append(V("comparison/simulated-recovery", "first curve is not (time/tau, simulated recovery)", case=case))
-            if not (same(l1[1][0], ts) and np.allclose(l1[1][1], np.cumsum(gas[keep]) / M, rtol=1e-13, atol=0)):
+            if not (close(l1[1][0], ts) and np.allclose(l1[1][1], np.cumsum(gas[keep]) / M, rtol=1e-13, atol=0)):
                 viol.append(V("comparison/cumulative-over-M", "second curve is not (time/tau, cumulative production / M)",
                               case=case))
-            if not (same(l2[0][0], ts) and same(l2[0][1], np.asarray(pk, dtype=float))):
+            # raw pressures are data (bitwise); a boxcar average is a derived quantity (a few ulp)
+            pk_ok = close(l2[0][1], np.asarray(pk, dtype=float), ulps=16) if case["window"] and case["window"] > 1 \
+                else same(l2[0][1], np.asarray(pk, dtype=float))
+            if not (close(l2[0][0], ts) and pk_ok):
                 viol.append(V("comparison/pressure", "pressure curve is not (time/tau, frac-face pressure)", case=case))
     finally:
         plt.close(fig)
@@ -177,60 +189,74 @@ def eval_comparison(case):
 
 
 def eval_transform(case):
-    from bluebonnet.plotting import SquareRootScale  # noqa: PLC0415
-
-    a = np.array(case["values"], dtype=case["dtype"])
-    fw = SquareRootScale.SquareRootTransform()
-    inv = fw.inverted()
-    eps = np.finfo(a.dtype).eps
-    viol = []
-    with np.errstate(all="ignore"):
-        keep = a.copy()
-        s = np.asarray(fw.transform_non_affine(a))
-        s_again = np.asarray(fw.transform_non_affine(a))
-        if not np.array_equal(a, keep):
-            viol.append(V("transform/input-modified", "the transform overwrote the array it was given", case=case))
-            a = keep.copy()
-        if not np.array_equal(s, s_again, equal_nan=True):
-            viol.append(V("transform/repeatable", "transforming the same array twice gives different results", case=case))
-        b = s.copy()
-        inv.transform(b)
-        if not np.array_equal(b, s, equal_nan=True):
-            viol.append(V("transform/input-modified", "the inverse transform overwrote the array it was given", case=case))
-        want = np.sqrt(a.astype(np.float64))
-        if not np.all(np.abs(s - want) <= 2 * eps * want):
-            viol.append(V("transform/is-square-root", f"transform({a.tolist()}) = {s.tolist()}", case=case))
-        back = np.asarray(inv.transform(s), dtype=float)
-        ok = np.abs(back - a) <= 8 * eps * np.abs(a.astype(np.float64)) + 5e-324
-        if not np.all(ok):
-            viol.append(V("transform/inverse-of-forward", f"inverse(transform(x)) != x at {a[~ok].tolist()} -> "
-                          f"{back[~ok].tolist()}", case=case))
-        small = a[a.astype(np.float64) < 0.5 * np.sqrt(float(np.finfo(a.dtype).max))]
-        sq = np.asarray(inv.transform(small), dtype=float)
-        there = np.asarray(fw.transform_non_affine(sq), dtype=float)
-        good = (sq > 100 * float(np.finfo(a.dtype).tiny)) | (small == 0)  # squares that underflow are outside 'exact mutual inverses'
-        ok2 = np.abs(there - small) <= 8 * eps * np.abs(small.astype(np.float64))
-        if not np.all(ok2[good]):
-            viol.append(V("transform/forward-of-inverse", f"transform(inverse(x)) != x at {small[good & ~ok2].tolist()}",
-                          case=case))
-    with np.errstate(all="ignore"):
-        twice = np.asarray(inv.inverted().transform_non_affine(keep), dtype=float)
-    if not np.array_equal(twice, np.asarray(s, dtype=float), equal_nan=True):
-        viol.append(V("transform/inverse-of-inverse", "inverted().inverted() is not the square root again", case=case))
-    if type(inv).__name__ != "InvertedSquareRootTransform" or type(inv.inverted()).__name__ != "SquareRootTransform":
-        viol.append(V("transform/partners", f"inverted() returns {type(inv).__name__} / {type(inv.inverted()).__name__}",
-                      case=case))
+    """The transform pair as matplotlib obtains and uses it: from the registered scale of an Axes, through BOTH
+    entry points (`transform`, and `transform_non_affine`, which is what composite transforms such as
+    ax.transData call), and once through the Axes' own data <-> display round trip."""
     import matplotlib.pyplot as plt  # noqa: PLC0415
 
+    import bluebonnet.plotting  # noqa: F401, PLC0415  (registers the scale)
+
+    a = np.array(case["values"], dtype=case["dtype"])
+    eps = np.finfo(a.dtype).eps
+    viol = []
     fig, ax = plt.subplots()
     try:
         ax.set_xscale("squareroot")
-        tr = ax.xaxis.get_transform()
-        if type(tr).__name__ != "SquareRootTransform":
-            viol.append(V("transform/registered", f"xscale 'squareroot' uses {type(tr).__name__}", case=case))
+        ax.set_yscale("squareroot")
+        fw = ax.xaxis.get_transform()
+        inv = fw.inverted()
+        keep = a.copy()
+        want = np.sqrt(a.astype(np.float64))
+        small = a[a.astype(np.float64) < 0.5 * np.sqrt(float(np.finfo(a.dtype).max))]
+        for entry in ("transform", "transform_non_affine"):
+            with np.errstate(all="ignore"):
+                f, g = getattr(fw, entry), getattr(inv, entry)
+                s = np.asarray(f(a))
+                s_again = np.asarray(f(a))
+                if not np.array_equal(a, keep):
+                    viol.append(V("transform/input-modified", f"{entry}: the transform overwrote the array it was given", case=case))
+                    a = keep.copy()
+                if not np.array_equal(s, s_again, equal_nan=True):
+                    viol.append(V("transform/repeatable", f"{entry}: transforming the same array twice gives different results", case=case))
+                b = s.copy()
+                g(b)
+                if not np.array_equal(b, s, equal_nan=True):
+                    viol.append(V("transform/input-modified", f"{entry}: the inverse transform overwrote the array it was given", case=case))
+                if s.shape != a.shape or not np.all(np.abs(s - want) <= 2 * eps * want):
+                    viol.append(V("transform/is-square-root", f"{entry}({a.tolist()}) = {s.tolist()}", case=case))
+                    continue
+                back = np.asarray(g(s), dtype=float)
+                ok = np.abs(back - a) <= 8 * eps * np.abs(a.astype(np.float64)) + 5e-324
+                if back.shape != a.shape or not np.all(ok):
+                    viol.append(V("transform/inverse-of-forward", f"inverse.{entry}(forward.{entry}(x)) != x at "
+                                  f"{a[~ok].tolist()[:4]} -> {back[~ok].tolist()[:4]}", case=case))
+                sq = np.asarray(g(small), dtype=float)
+                there = np.asarray(f(sq), dtype=float)
+                good = (sq > 100 * float(np.finfo(a.dtype).tiny)) | (small == 0)  # squares that underflow are outside 'exact mutual inverses'
+                ok2 = np.abs(there - small) <= 8 * eps * np.abs(small.astype(np.float64))
+                if not np.all(ok2[good]):
+                    viol.append(V("transform/forward-of-inverse", f"forward.{entry}(inverse.{entry}(x)) != x at "
+                                  f"{small[good & ~ok2].tolist()[:4]}", case=case))
+                twice = np.asarray(getattr(inv.inverted(), entry)(keep), dtype=float)
+                if not np.array_equal(twice, np.asarray(s, dtype=float), equal_nan=True):
+                    viol.append(V("transform/inverse-of-inverse", f"{entry}: inverted().inverted() is not the square root again",
+                                  case=case))
+        # the Axes' own round trip data -> display -> data on a square-root x and y axis
+        pts = a.astype(np.float64)
+        pts = pts[np.isfinite(pts) & (pts > 0) & (pts < 1e12) & (pts > 1e-12)]
+        if pts.size:
+            hi = float(pts.max())
+            ax.set_xlim(0.0, hi)
+            ax.set_ylim(0.0, hi)
+            xy = np.column_stack([pts, pts[::-1]])
+            rt = ax.transData.inverted().transform(ax.transData.transform(xy))
+            if not np.allclose(rt, xy, rtol=1e-9, atol=1e-12 * hi):
+                k = int(np.argmax(np.abs(rt - xy).max(axis=1)))
+                viol.append(V("transform/axes-round-trip", f"on a square-root axis data -> display -> data maps {xy[k].tolist()} to "
+                              f"{rt[k].tolist()}: the inverse the Axes uses is not the inverse of the transform it uses", case=case))
     finally:
         plt.close(fig)
-    return {"violations": viol, "outcome": "transform", "key": ("t", case["dtype"], len(case["values"]))}
+    return {"violations": viol[:4], "outcome": "transform", "key": ("t", case["dtype"], len(case["values"]))}
 
 
 def evaluate(case):
@@ -246,6 +272,15 @@ def cases(tier, seed):
         everys.append(2 + int(17 * seed_offset(seed)))
     for r, e, rs in itertools.product(["ideal", "gas", "gas-schedule"], everys, [False, True]):
         out.append({"kind": "profiles", "res": r, "n": n, "every": e, "rescale": rs})
+    # rarely used arguments (axis limits and line styling must not touch the data), the helper's own axes, and a long run
+    # (5001 levels as in the documentation notebooks) with the default stride of 200
+    for r, rs in itertools.product(["ideal", "gas"], [False, True]):
+        out.append({"kind": "profiles", "res": r, "n": n, "every": 3, "rescale": rs,
+                    "kwargs": {"x_max": 0.5, "y_max": 0.7, "plot_kwargs": {"linewidth": 0.5, "linestyle": "--"}}})
+        out.append({"kind": "profiles", "res": r, "n": n, "every": 2, "rescale": rs, "kwargs": {"x_max": 2.0}, "own_axes": True})
+        out.append({"kind": "profiles", "res": r, "n": 5001, "rescale": rs, "default_every": True})
+    for r in ["ideal", "gas"]:
+        out.append({"kind": "recovery", "res": r, "n": 5001, "ticks": False, "history": None})
     for r, tk, h in itertools.product(["ideal", "gas"], [False, True], [None, "density-first"]):
         out.append({"kind": "recovery", "res": r, "n": n, "ticks": tk, "history": h})
     for tau, M, flt, w in itertools.product([25.0, 90.0], [1300.0, 8e4], [True, False], [None, 1, 3]):
